@@ -392,4 +392,102 @@ theorem msGet_eraseRefs (refs : List Nat) (ms : List (Nat × List Nat)) (skip : 
       · subst h; simp [hs, setErase_idem]
       · simp [h]
 
+/-! ### the invariant -/
+
+/-- everything except the model/asset cross references and the capacity bound. -/
+structure Base (c : Cache) : Prop where
+  noub : c.ub = false
+  size_eq : c.size = sumSizes c.assets
+  size_lt : c.size < HALF
+  cap_lt : c.capacity < HALF
+  ids_nodup : (c.assets.map (·.id)).Nodup
+  nums_nodup : (c.assets.map (·.insertNum)).Nodup
+  nums_lt : ∀ a ∈ c.assets, a.insertNum < c.insertNum
+  sets_nodup : ∀ m, (msGet c.models m).Nodup
+
+/-- `models_[m]` lists asset `id`  iff  the asset stored under `id` lists `m` in `references_`. -/
+def Consistent (c : Cache) : Prop :=
+  ∀ m id, id ∈ msGet c.models m ↔ ∃ a, find c.assets id = some a ∧ m ∈ a.refs
+
+structure Wf (c : Cache) : Prop where
+  base : Base c
+  cons : Consistent c
+
+structure Inv (c : Cache) : Prop where
+  wf : Wf c
+  size_le : c.size ≤ c.capacity
+
+theorem HALF_lt_W : HALF + HALF = W := by decide
+
+theorem base_amap {c : Cache} (hb : Base c) (id : Nat) (f : Asset → Asset)
+    (h1 : ∀ a, (f a).id = a.id) (h2 : ∀ a, (f a).insertNum = a.insertNum) (h3 : ∀ a, (f a).size = a.size) :
+    Base { c with assets := amap c.assets id f } := by
+  refine ⟨hb.noub, ?_, hb.size_lt, hb.cap_lt, ?_, ?_, ?_, hb.sets_nodup⟩
+  · show c.size = sumSizes (amap c.assets id f)
+    rw [sumSizes_amap_same _ _ _ h3]; exact hb.size_eq
+  · show ((amap c.assets id f).map (·.id)).Nodup
+    rw [ids_amap _ _ _ h1]; exact hb.ids_nodup
+  · show ((amap c.assets id f).map (·.insertNum)).Nodup
+    rw [nums_amap _ _ _ h2]; exact hb.nums_nodup
+  · intro b hbm
+    obtain ⟨a, ha, rfl⟩ := mem_amap.mp hbm
+    have := hb.nums_lt a ha
+    by_cases h : a.id = id <;> simp [h, h2] <;> exact this
+
+theorem deleteCore_models (c : Cache) (a : Asset) (skip : Option Nat) :
+    (deleteCore c a skip).models = eraseRefs c.models a.refs skip a.id := rfl
+
+theorem base_deleteCore {c : Cache} (hb : Base c) {a : Asset} (ha : find c.assets a.id = some a)
+    (skip : Option Nat) : Base (deleteCore c a skip) := by
+  have hmem := (find_some ha).1
+  have hle : a.size ≤ c.size := by rw [hb.size_eq]; exact size_le_sumSizes hmem
+  have hlt := hb.size_lt
+  have hsub : wsub c.size a.size = c.size - a.size := wsub_eq hle (by have := HALF_lt_W; omega)
+  have hsum := sumSizes_aerase hb.ids_nodup ha
+  refine ⟨hb.noub, ?_, ?_, hb.cap_lt, ?_, ?_, ?_, ?_⟩
+  · show wsub c.size a.size = sumSizes (aerase c.assets a.id)
+    rw [hsub, hb.size_eq]; omega
+  · show wsub c.size a.size < HALF
+    rw [hsub]; omega
+  · exact hb.ids_nodup.sublist ((aerase_sublist _ _).map _)
+  · exact hb.nums_nodup.sublist ((aerase_sublist _ _).map _)
+  · intro b hbm; exact hb.nums_lt b (mem_aerase.mp hbm).1
+  · intro m
+    rw [deleteCore_models, msGet_eraseRefs]
+    split
+    · exact nodup_setErase (hb.sets_nodup m)
+    · exact hb.sets_nodup m
+
+theorem deleteCore_size {c : Cache} (hb : Base c) {a : Asset} (ha : find c.assets a.id = some a)
+    (skip : Option Nat) : (deleteCore c a skip).size + a.size = c.size := by
+  have hmem := (find_some ha).1
+  have hle : a.size ≤ c.size := by rw [hb.size_eq]; exact size_le_sumSizes hmem
+  have hlt := hb.size_lt
+  have hsub : wsub c.size a.size = c.size - a.size := wsub_eq hle (by have := HALF_lt_W; omega)
+  show wsub c.size a.size + a.size = c.size
+  rw [hsub]; omega
+
+/-- `Delete(asset)` keeps the cross references consistent. -/
+theorem cons_deleteCore_none {c : Cache} (hc : Consistent c) {a : Asset} (ha : find c.assets a.id = some a) :
+    Consistent (deleteCore c a none) := by
+  intro m id
+  rw [deleteCore_models, msGet_eraseRefs]
+  show _ ↔ ∃ b, find (aerase c.assets a.id) id = some b ∧ m ∈ b.refs
+  rw [find_aerase]
+  by_cases hid : id = a.id
+  · subst hid
+    have := hc m a.id
+    rw [ha] at this
+    by_cases hm : m ∈ a.refs
+    · simp [hm, mem_setErase]
+    · simp [hm]; intro h; exact hm (by simpa using this.mp h)
+  · have := hc m id
+    by_cases hm : m ∈ a.refs
+    · simp [hm, hid, mem_setErase, this]
+    · simp [hm, hid, this]
+
+theorem wf_deleteCore_none {c : Cache} (h : Wf c) {a : Asset} (ha : find c.assets a.id = some a) :
+    Wf (deleteCore c a none) :=
+  ⟨base_deleteCore h.base ha none, cons_deleteCore_none h.cons ha⟩
+
 end MjProof.Cache
